@@ -488,7 +488,7 @@ def pause_check(ctx):
 
     from translate import pause as tr_pause
 
-    shape, _ = tr_pause.extract()
+    shape = tr_pause.extract()[0]
     pool = mp.get_context("fork").Pool(processes=2, maxtasksperchild=1, initializer=_e2e_exit.no_join_at_exit)
     try:
         results = pool.map(pause_scenario, ["overlap"] * 2 + ["collision"] * ctx.n(2, 8))
